@@ -529,12 +529,14 @@ def case_boot_subsample(col, p):
         with warnings.catch_warnings():
             warnings.simplefilter('ignore')
             dd = dadi.Misc.make_data_dict_vcf(vcf, popf)
-            for mc, pol in itertools.product((True, False), (True, False)):
+            for mc, pol, rev in itertools.product((True, False), (True, False), (False, True)):
                 ex = dadi.Spectrum.from_data_dict(dd, pops, proj, mask_corners=mc, polarized=pol)
-                boots = dadi.Misc.bootstraps_subsample_vcf(vcf, popf, dict(subs), 2, 10 ** 9, pops, mask_corners=mc, polarized=pol)
+                # the subsample dictionary is looked up by population name: the order of its keys is the caller's business
+                sub_arg = dict(reversed(list(subs.items()))) if rev else dict(subs)
+                boots = dadi.Misc.bootstraps_subsample_vcf(vcf, popf, sub_arg, 2, 10 ** 9, pops, mask_corners=mc, polarized=pol)
                 col.tick(transitions=2)
                 n += 1
-                info = dict(kind='boot_subsample', layout=layout, mask_corners=mc, polarized=pol)
+                info = dict(kind='boot_subsample', layout=layout, mask_corners=mc, polarized=pol, subsample_keys_reversed=rev)
                 if len(boots) != 2:
                     col.violation('C13:bootstraps_subsample_vcf:count', info, len(boots))
                 for b in boots:
